@@ -118,6 +118,9 @@ def gen_item(rnd, depth, used):
         return item(c, alias)
     if k < 0.32:
         return item(rnd.choice([["str", "lit"], num(7), ["bool", True], ["null"]]), "k%d" % rnd.randint(0, 3))
+    if k < 0.37:
+        # FUSE blends the keys of an object column into the row (with an optional prefix)
+        return item(["func", "", "fuse", [col("o")]], rnd.choice(["", "", "p"]))
     if k < 0.40:
         return item(["un", "bang", col("b0")], "k%d" % rnd.randint(0, 3))
     if k < 0.47:
